@@ -215,5 +215,42 @@ static void glyph_case (long idx, vf_rng *r)
     vf_count ("histories", 1);
 }
 
-static void init (void) { if (sscanf (vf.config, "hw%d", &HW) != 1) HW = 16384; ent = calloc (MAXK, sizeof (entry_t)); }
-int main (int argc, char **argv) { return vf_main (argc, argv, "C17", init, glyph_case, NULL); }
+/* Exhaustive small scope (config "hwN-exhaustiveL"): every history of exactly L symbols over the alphabet
+ * { freeze, thaw, use(k) = lookup then insert if absent, remove(k) = remove if present : k in 6 keys } on a cache
+ * that starts frozen once.  Case idx is the history written in base 14.  After every symbol all 6 keys are looked up
+ * and compared with the model; thaws to depth 0 are judged as in the random histories. */
+static int EXL;
+static void exhaustive_case (long idx, vf_rng *r)
+{
+    enum { NK = 6, NSYM = 2 + 2 * NK };
+    nkeys = NK; memset (ent, 0, sizeof (entry_t) * nkeys); stamp = 0; live_count = 0; removes_total = 0; freeze_depth = 0;
+    pixman_glyph_cache_t *c = pixman_glyph_cache_create (); if (!c) return;
+    pixman_glyph_cache_freeze (c); freeze_depth = 1;
+    char hist[120]; int hk = 0; hist[0] = 0; long code = idx; int nontrivial = 0;
+    for (int s = 0; s < EXL; s++) {
+        int sym = (int)(code % NSYM); code /= NSYM;
+        if (sym == 0) { if (freeze_depth < 3) { pixman_glyph_cache_freeze (c); freeze_depth++; } hk += snprintf (hist + hk, sizeof hist - hk, "F "); }
+        else if (sym == 1) { hk += snprintf (hist + hk, sizeof hist - hk, "T ");
+            if (freeze_depth > 0) { vf_case_desc ("HW=%d exhaustive history: F %s", HW, hist); pixman_glyph_cache_thaw (c); freeze_depth--; vf_count ("thaws", 1); if (freeze_depth == 0) after_thaw (c); } }
+        else if (sym < 2 + NK) { int k = sym - 2; vf_case_desc ("HW=%d exhaustive history: F %s then use(%d)", HW, hist, k);
+            check_lookup (c, k);
+            if (!ent[k].live && freeze_depth > 0) { int ok = do_insert (c, k, r, 1); hk += snprintf (hist + hk, sizeof hist - hk, ok ? "I%d " : "i%d(refused) ", k); nontrivial += ok; }
+            else hk += snprintf (hist + hk, sizeof hist - hk, "L%d ", k); }
+        else { int k = sym - 2 - NK; vf_case_desc ("HW=%d exhaustive history: F %s then remove(%d)", HW, hist, k);
+            if (ent[k].live) { pixman_glyph_cache_remove (c, fkey (k), gkey (k)); drop_entry (&ent[k]); live_count--; removes_total++; vf_count ("removes", 1); hk += snprintf (hist + hk, sizeof hist - hk, "R%d ", k); nontrivial++; }
+            else hk += snprintf (hist + hk, sizeof hist - hk, "r%d ", k); }
+        vf_case_desc ("HW=%d exhaustive history: F %s", HW, hist);
+        for (int k = 0; k < NK; k++) check_lookup (c, k);
+    }
+    if (nontrivial) vf_cell ("cells", vf_mix (HW, (uint64_t)idx));
+    vf_count ("exhaustive_histories", 1); vf_max ("max_live_entries", live_count);
+    while (freeze_depth > 0) { pixman_glyph_cache_thaw (c); freeze_depth--; }
+    if (idx % 100003 == 7) vf_sample ("HW=%d exhaustive history #%ld: F %s", HW, idx, hist);
+    for (int k = 0; k < nkeys; k++) if (ent[k].copy) { free (ent[k].copy); ent[k].copy = NULL; }
+    pixman_glyph_cache_destroy (c);
+    vf_count ("histories", 1);
+}
+static void any_case (long idx, vf_rng *r) { if (EXL) exhaustive_case (idx, r); else glyph_case (idx, r); }
+
+static void init (void) { if (sscanf (vf.config, "hw%d", &HW) != 1) HW = 16384; const char *e = strstr (vf.config, "exhaustive"); if (e) EXL = atoi (e + 10); ent = calloc (MAXK, sizeof (entry_t)); }
+int main (int argc, char **argv) { return vf_main (argc, argv, "C17", init, any_case, NULL); }
